@@ -261,8 +261,16 @@ def check_step_partition(ctx, case, G):
     double = [j for j in range(n) if counts[j] > 1]
     code = np.array([int(written[j]) - 1 for j in range(n)])
     shift_only = all((code[j] == exact[j]) or (boundary[j] and code[j] == exact[j] + 1) for j in range(n))
+    last_out = (uncovered == [n - 1] and not double
+                and all((code[j] == exact[j]) or (boundary[j] and code[j] == exact[j] + 1) for j in range(n - 1))
+                and all(member[:, j].sum() == 1 for j in range(n - 1)))
     if empty or uncovered or double:
-        if shift_only and not uncovered and not double:
+        if last_out:
+            ctx.mismatch("stepexp/last_node_uncovered/%s" % key, case,
+                         "the last grid node belongs to no step: x0 + n_steps*L/n_steps evaluated in floating point is smaller "
+                         "than the last node (par2fun returns 0 there)",
+                         expected={"step_of_node": exact.tolist()}, observed={"step_written_by_par2fun": code.tolist(), "empty_steps": empty})
+        elif shift_only and not uncovered and not double:
             ctx.mismatch("stepexp/empty_step_boundary_shift/%s" % key, case,
                          "a step receives no grid node: a node that coincides with a step boundary is moved to the next "
                          "step by floating-point comparison (par2fun ignores the step's parameter, fun2par returns NaN)",
@@ -328,7 +336,13 @@ def check_maps(ctx, case):
         except Exception as ex:     # noqa: BLE001
             ctx.observe("funvec_shape_without_vector_form/" + c["cls"], type(ex).__name__)
     if rep != exp:
-        ctx.mismatch("reported_shape/" + key, case, "shapes / dimensions reported by the geometry differ from the specification", exp, rep)
+        rest = {k: v for k, v in rep.items() if not k.startswith("funvec")} == {k: v for k, v in exp.items() if not k.startswith("funvec")}
+        if rest and isinstance(rep.get("funvec_shape"), str) and (1 in m.fun_shape or d == 1):
+            # funvec_shape is inferred from fun2vec(par2fun(ones)), whose unit dimension was squeezed away
+            ctx.mismatch("shape_unitdim/%s/reported_funvec_shape" % key, case, "funvec_shape cannot be inferred: the single-input "
+                         "map output lost a dimension of size 1", exp, rep)
+        else:
+            ctx.mismatch("reported_shape/" + key, case, "shapes / dimensions reported by the geometry differ from the specification", exp, rep)
     if d == 0:
         return
     # --- StepExpansion partition (decides which oracle the projections use)
@@ -498,7 +512,8 @@ def replay_conv_group(ctx, mcase, group):
                 nxt = _call(lambda: getattr(obj, op))
             except Exception as ex:     # noqa: BLE001
                 sig = "%s/%s/origin=%s/trail=%s" % (key, rep, origin, "-".join(t2))
-                ctx.mismatch("conv_raises/" + sig, {"kind": "conv", "c": c, "rep": rep, "origin": origin, "trail": list(t2)},
+                unit = (1 in m.fun_shape or m.par_dim == 1) and "broadcast" in str(ex)
+                ctx.mismatch(("shape_unitdim/conv_raises/" if unit else "conv_raises/") + sig, {"kind": "conv", "c": c, "rep": rep, "origin": origin, "trail": list(t2)},
                              "conversion raised: %r" % (ex,))
                 continue
             walk(nxt, t2)
